@@ -32,8 +32,7 @@ func c19timeNamed(t types.Type, name string) bool {
 	return ok && n.Obj().Pkg() != nil && n.Obj().Pkg().Path() == "time" && n.Obj().Name() == name
 }
 
-func c19classifySource(r *c19run, ch ast.Expr, depth int) c19source {
-	f := r.f
+func c19classifySource(r *c19run, f *flow.Func, ch ast.Expr, depth int) c19source {
 	ch = ast.Unparen(ch)
 	switch x := ch.(type) {
 	case *ast.SelectorExpr:
@@ -72,7 +71,7 @@ func c19classifySource(r *c19run, ch ast.Expr, depth int) c19source {
 				}
 			}
 			if sel, ok := rhs.(*ast.SelectorExpr); ok {
-				if s := c19classifySource(r, sel, depth+1); s.kind == "ticker" || s.kind == "timer" {
+				if s := c19classifySource(r, f, sel, depth+1); s.kind == "ticker" || s.kind == "timer" {
 					kinds = append(kinds, s)
 					return
 				}
@@ -129,7 +128,26 @@ func (s c19source) rearmCall(f *flow.Func, call *ast.CallExpr) bool {
 		return false
 	}
 	sel, ok := ast.Unparen(call.Fun).(*ast.SelectorExpr)
-	return ok && c19obj(f, sel.X) == s.obj
+	if !ok {
+		return false
+	}
+	o := c19obj(f, sel.X)
+	if o == s.obj {
+		return true
+	}
+	// the same timer seen through a parameter of a helper (run split into setup + loop)
+	return o != nil && (c19isParamVar(o) || c19isParamVar(s.obj))
+}
+
+// c19isParamVar: the variable is a parameter of some function (declared in a signature, not by
+// an assignment) — it is then an alias of whatever its callers pass.
+func c19isParamVar(o types.Object) bool {
+	v, ok := o.(*types.Var)
+	if !ok || v.IsField() || v.Parent() == nil {
+		return false
+	}
+	// parameters are declared in the function scope, whose extent is the body: they precede it
+	return v.Pos() < v.Parent().Pos()
 }
 
 // rearmNode: the statement re-arms the source (v = time.After(d) on the same variable).
@@ -192,30 +210,28 @@ func c19unitRearms(c *core.Ctx, u *c19unit, s c19source) (always bool, bad *flow
 // c19tickerStopped finds a call that stops the ticker while the loop can still run: any
 // x.Stop() on it that is not deferred by run itself.
 func c19tickerStopped(r *c19run, s c19source) ast.Node {
-	f := r.f
 	var at ast.Node
-	ast.Inspect(f.Body, func(n ast.Node) bool {
-		call, ok := n.(*ast.CallExpr)
-		if !ok || calleeFull(f, call) != "(*time.Ticker).Stop" {
-			return true
-		}
-		sel, ok := ast.Unparen(call.Fun).(*ast.SelectorExpr)
-		if !ok || c19obj(f, sel.X) != s.obj {
-			return true
-		}
-		if d, ok := r.pm[call].(*ast.DeferStmt); ok {
-			inLit := false
-			for p := r.pm[d]; p != nil; p = r.pm[p] {
-				if _, ok := p.(*ast.FuncLit); ok {
-					inLit = true
+	for _, f := range r.funcs {
+		pm := r.pms[f]
+		ast.Inspect(f.Body, func(n ast.Node) bool {
+			call, ok := n.(*ast.CallExpr)
+			if !ok || calleeFull(f, call) != "(*time.Ticker).Stop" {
+				return true
+			}
+			if d, ok := pm[call].(*ast.DeferStmt); ok {
+				inLit := false
+				for p := pm[d]; p != nil; p = pm[p] {
+					if _, ok := p.(*ast.FuncLit); ok {
+						inLit = true
+					}
+				}
+				if !inLit {
+					return true // released when run (or the function holding the loop) returns
 				}
 			}
-			if !inLit {
-				return true // released when run returns
-			}
-		}
-		at = call
-		return true
-	})
+			at = call
+			return true
+		})
+	}
 	return at
 }
